@@ -784,6 +784,32 @@ func (e *FnEnc) ret(r *ssa.Return) {
 		}
 		e.obligeClause(env, c, fmt.Sprintf("ensures%d@%s", k+1, e.posOf(r)), "post", e.curGuard, e.posOf(r))
 	}
+	for _, li := range e.loopList {
+		lc := e.con.Loops[li.ordinal]
+		if lc == nil || len(lc.ReturnEnsures) == 0 {
+			continue
+		}
+		inBody := false // the return leaves the loop from its body (not through the header's exit edge)
+		for b := range li.blocks {
+			if b != li.header && b.Dominates(e.curBlock) {
+				inBody = true
+			}
+		}
+		if !inBody {
+			continue
+		}
+		lenv := e.specEnv(e.cur, e.initState, nil)
+		lenv.site = e.curBlock
+		lenv.loopOrd = li.ordinal
+		lenv.pre = li.preState
+		e.bindResults(lenv, e.fn.Signature, res)
+		for k, c := range lc.ReturnEnsures {
+			if !clauseActive(c, e.prop) {
+				continue
+			}
+			e.obligeClause(lenv, c, fmt.Sprintf("loop%d.return-ensures%d@%s", li.ordinal, k+1, e.posOf(r)), "post", e.curGuard, e.posOf(r))
+		}
+	}
 	// frame of the whole function: pre-existing objects not in modifies are unchanged
 	for _, name := range sortedKeys(e.heapVars) {
 		if e.con.NoFrame {
